@@ -71,6 +71,7 @@ package taskfile
 //@   site os.ReadFile#1 requires arg0 == cachePath                                                                   [C20]
 
 //@ ghost var cacheReadOK bool scratch
+//@ ghost var parsedURL *url.URL scratch
 //@ ghost var cacheTried bool scratch
 //@ func (*Reader).readRemoteNodeContent
 //@   init dlFailed := false
@@ -96,6 +97,17 @@ package taskfile
 // plain http is refused unless --insecure, for every kind of remote node
 //@ func NewHTTPNode
 //@   ensures result.1 == nil ==> url.Scheme != "http" || insecure                                                    [C20]
+// the node is the entrypoint as it was given: its URL is the parsed entrypoint, untouched (relative includes of the
+// remote file are resolved against it, online and from the cache alike), and its location - the key of its cache
+// entry and of its vertex in the graph - is the entrypoint string itself
+//@   site url.Parse#1 requires arg0 == entrypoint                                                                    [C20]
+//@   site url.Parse#1 ghost parsedURL := result.0
+//@   ensures result.1 == nil ==> result.0.URL == parsedURL && result.0.entrypoint == entrypoint                      [C20]
+//@   nosite store:URL.Path                                                                                           [C20]
+//@   nosite store:URL.RawPath                                                                                        [C20]
+//@   nosite store:URL.Host                                                                                           [C20]
+//@   nosite store:URL.Scheme                                                                                         [C20]
+//@   nosite store:URL.RawQuery                                                                                       [C20]
 //@ func NewGitNode
 //@   ensures result.1 == nil ==> u.Scheme != "http" || insecure                                                      [C20]
 //@ func NewNode
